@@ -257,7 +257,18 @@ func main() {
 	repo := flag.String("repo", "/repo", "repository root")
 	out := flag.String("out", "", "output Lean file")
 	skelOut := flag.String("skel-out", "", "output Lean file of the control skeletons (default: appended to -out)")
+	strOut := flag.String("str-out", "", "output Lean file of the translated utils/str.go helpers (Generated/StrGo.lean)")
 	flag.Parse()
+
+	if *strOut != "" {
+		txt, err := translateStr(*repo)
+		if err != nil {
+			fail("%v", err)
+		}
+		if err := os.WriteFile(*strOut, []byte(txt), 0o644); err != nil {
+			fail("write %s: %v", *strOut, err)
+		}
+	}
 
 	fset := token.NewFileSet()
 	var entries []entry
